@@ -301,7 +301,7 @@ pub fn run(ctx: &mut Ctx) {
         if mlen == 0 {
             ctx.class("msg_empty");
         }
-        let r = if i % 6 == 0 { &pr.n - 2u32 - BigUint::from(i % 4) } else if i % 10 == 4 { BigUint::from(1 + i % 3) } else if i % 10 == 7 { sparse_scalar(&mut p, 1 + (i / 10) % 14) } else { rand_scalar(&mut p, &(&pr.n - 1u32)) };
+        let r = if i % 6 == 0 { &pr.n - 2u32 - BigUint::from(i % 4) } else if i % 10 == 4 { BigUint::from(1 + i % 3) } else if i % 10 == 7 { sparse_scalar(&mut p, 1 + (i / 10) % 14) } else if i % 10 == 9 { crate::sm2x::run_scalar(&mut p, &(&pr.n - 1u32)) } else { rand_scalar(&mut p, &(&pr.n - 1u32)) };
         // crafted master key ks = H1(ID||01): the verifier's [h1]P2 + Ppub-s is then a doubling
         let ks = if i % 8 == 3 {
             ctx.class("ks=H1(id)_doubling_in_verify");
